@@ -12,6 +12,11 @@ pub fn keyfn(f: &Finding, p: &Program, o: &Outcome) -> Option<String> {
 
 pub fn spec(tier: Tier) -> RelSpec {
     let mk = |depth, sources: Vec<SrcKind>, max_joins| GenCfg { depth, sources, max_joins, letters: Letters::Naming };
+    // exploration aid (not a registered tier): MC_C05_DEPTH=3
+    if let Ok(d) = std::env::var("MC_C05_DEPTH") {
+        let d: usize = d.parse().unwrap_or(3);
+        return RelSpec { property: "C05", cfgs: vec![mk(d, vec![SrcKind::OpenT, SrcKind::LetClosed], 1)], exh_depth: 0, exh_size: (1, 1), decides: vec![Kind::Arity, Kind::Names], keyfn };
+    }
     let cfgs = match tier {
         Tier::Quick => vec![mk(2, vec![SrcKind::OpenT, SrcKind::LetClosed, SrcKind::SubClosed, SrcKind::Literal], 1)],
         Tier::Thorough => vec![mk(2, vec![SrcKind::OpenT, SrcKind::LetClosed, SrcKind::SubClosed, SrcKind::Literal, SrcKind::LetSorted], 2)],
